@@ -32,18 +32,18 @@ Theorem C12_compressed_step_invariant : forall ts off, off < 32 -> ts + 32 < 2 ^
   ((ts + (off + 32 - ts mod 32) mod 32) mod 2 ^ 32) mod 32 = off.
 Proof. exact compressed_step_invariant. Qed.
 
-(* local_date_time with a usable reference: the reference UTC instant in a fixed zone of offset local - UTC *)
-Theorem C12_local_time_with_reference : forall s u num, u <> 0xFFFFFFFF -> c_systemTimeMarker <= ds_ts s ->
+(* local_date_time with a usable reference (a timestamp field has been seen, d.hasTimestamp, and it is an absolute
+   instant, >= systemTimeMarker): the reference UTC instant in a fixed zone of offset local - UTC *)
+Theorem C12_local_time_with_reference : forall s u num, u <> 0xFFFFFFFF -> ds_hasts s = true -> c_systemTimeMarker <= ds_ts s ->
   parse_time_stamp s u kind_timelocal num = (Some (VTime (Z.of_N (ds_ts s)) 0 (Some (Z.of_N u - Z.of_N (ds_ts s))%Z)), s).
 Proof. exact local_time_with_reference. Qed.
 
-(* FULL STATEMENT (refuted): without a reference the local value is kept with offset 0 AND the reference stays
-   absent. The code makes the local value the reference (known finding local_sets_reference); the model tags
-   every execution entering that branch: *)
-Theorem C12_local_time_without_reference : forall s u num, u <> 0xFFFFFFFF -> ds_ts s < c_systemTimeMarker ->
-  fst (parse_time_stamp s u kind_timelocal num) = Some (VTime (Z.of_N u) 0 (Some 0%Z)) /\
-  ds_ts (snd (parse_time_stamp s u kind_timelocal num)) = u /\
-  In Q_LOCAL_SETS_REF (ds_quirks (snd (parse_time_stamp s u kind_timelocal num))).
+(* FULL STATEMENT (proved; formerly refuted): without a usable reference (none yet, or a power-on-relative one below
+   systemTimeMarker) the local value is kept with offset 0 AND the decoder state is untouched: the reference stays
+   what it was.  The code used to make the local value the reference (defect local_sets_reference, fixed: ac9b0b0). *)
+Theorem C12_local_time_without_reference : forall s u num, u <> 0xFFFFFFFF ->
+  (ds_hasts s = false \/ ds_ts s < c_systemTimeMarker) ->
+  parse_time_stamp s u kind_timelocal num = (Some (VTime (Z.of_N u) 0 (Some 0%Z)), s).
 Proof. exact local_time_without_reference. Qed.
 
 (* ---------------------------------------------------------------------------------------------------------
@@ -52,9 +52,10 @@ Proof. exact local_time_without_reference. Qed.
 
 (* one record of any kind -- in particular a compressed-timestamp record in any decoder state related to the
    reference state -- is decoded to exactly what [denote_record] says, including the new time reference
-   (Inv contains: d.timestamp = reference, d.lastTimeOffset = reference mod 32, 0 <-> no reference) *)
+   (Inv contains: d.hasTimestamp <-> a reference exists, and then d.timestamp = reference,
+   d.lastTimeOffset = reference mod 32; a reference 0 is a reference like any other) *)
 Theorem C12_record_step : forall o pre fb gb ft s ss r ss' tl t n lim,
-  Inv o pre fb gb ft s ss -> rec_wf r = true -> record_time_ok ss r = true -> denote_record ss r = Some ss' ->
+  Inv o pre fb gb ft s ss -> rec_wf r = true -> denote_record ss r = Some ss' ->
   (n + List.length (ser_record r) <= lim)%nat ->
   exists s',
     run_a (parse_record o) (ast_at (ser_record r) tl t n lim) s =
@@ -92,39 +93,33 @@ Theorem C12_no_reference_unstamped : forall s l off pay dev,
   ss_ref s = None -> denote_data s l (Some off) pay dev = denote_data s l None pay dev.
 Proof. exact no_reference_unstamped. Qed.
 
-(* FULL STATEMENT (refuted): the stream theorem without the side condition [no_time_quirk].  Three witnesses, each
-   a serialisable stream the reference semantics accepts on which the decoder model returns a different File:
-   a local timestamp before any reference followed by a compressed record (known finding local_sets_reference;
-   the model raises Q_LOCAL_SETS_REF), an explicit timestamp 0 followed by a compressed record (known finding
-   ts_zero_no_reference; Q_TS_ZERO), and a compressed step wrapping the 32-bit reference to exactly 0 (the same
-   defect without a literal 0 on the wire; the same tag) *)
-Theorem C12_local_first_refuted :
-  stream_wf w_local_first = true /\ starts_with_file_id w_local_first = true /\
-  (exists a b, spec_slots w_local_first = Some a /\ model_slots w_local_first = Some b) /\
-  agree w_local_first = false /\ no_time_quirk w_local_first = false /\
-  In Q_LOCAL_SETS_REF (model_quirks w_local_first).
-Proof. exact decode_denote_local_first_refuted. Qed.
-Theorem C12_ts_zero_refuted :
-  stream_wf w_ts_zero = true /\ starts_with_file_id w_ts_zero = true /\
-  (exists a b, spec_slots w_ts_zero = Some a /\ model_slots w_ts_zero = Some b) /\
-  agree w_ts_zero = false /\ no_time_quirk w_ts_zero = false /\
-  In Q_TS_ZERO (model_quirks w_ts_zero).
-Proof. exact decode_denote_ts_zero_refuted. Qed.
-Theorem C12_wrap_zero_refuted :
-  stream_wf w_wrap_zero = true /\ starts_with_file_id w_wrap_zero = true /\
-  (exists a b, spec_slots w_wrap_zero = Some a /\ model_slots w_wrap_zero = Some b) /\
-  agree w_wrap_zero = false /\ no_time_quirk w_wrap_zero = false /\ In Q_TS_ZERO (model_quirks w_wrap_zero).
-Proof. exact decode_denote_wrap_zero_refuted. Qed.
+(* FULL STATEMENT (proved): the stream theorem has no time side condition any more.  The three streams below were
+   the witnesses of the two C12 time defects fixed by ac9b0b0 and 2f21531: a local timestamp before any reference
+   followed by a compressed record (local_sets_reference), an explicit timestamp 0 followed by a compressed record
+   (ts_zero_no_reference), and a compressed step wrapping the 32-bit reference to exactly 0 (the same defect without
+   a literal 0 on the wire).  The repaired decoder agrees with the reference semantics on them: they are ordinary
+   members of the domain of decode_denote now (recomputed) *)
+Example C12_local_first_agrees :
+  stream_wf w_local_first = true /\ starts_with_file_id w_local_first = true /\ agree w_local_first = true.
+Proof. exact local_first_agrees. Qed.
+Example C12_ts_zero_agrees :
+  stream_wf w_ts_zero = true /\ starts_with_file_id w_ts_zero = true /\ agree w_ts_zero = true.
+Proof. exact ts_zero_agrees. Qed.
+Example C12_wrap_zero_agrees :
+  stream_wf w_wrap_zero = true /\ starts_with_file_id w_wrap_zero = true /\ agree w_wrap_zero = true.
+Proof. exact wrap_zero_agrees. Qed.
 
-(* the side condition is satisfiable by a stream with an explicit timestamp, a compressed record and a local
-   timestamp read against the reference; on it model and reference semantics agree (recomputed) *)
+(* the hypotheses of the stream theorem are satisfiable by a stream with an explicit timestamp, a compressed record
+   and a local timestamp read against the reference; on it model and reference semantics agree (recomputed) *)
 Example C12_stream_example :
-  starts_with_file_id ok_stream = true /\ stream_wf ok_stream = true /\ no_time_quirk ok_stream = true /\
+  starts_with_file_id ok_stream = true /\ stream_wf ok_stream = true /\
   (exists ss f2 g1, denote ok_stream = Some ss /\ StreamDenoteLift.start_file w_hdr Model.Components.g_init (hd dummy_msg (ss_msgs ss)) = Some (f2, g1)) /\
   agree ok_stream = true.
 Proof. exact ok_stream_in_domain. Qed.
 
-(* PARTIAL: nothing of the time rules is left to the harness alone except the executions on the recorded defect
-   paths, which are excluded by [no_time_quirk] and documented by the witnesses above. *)
+(* PARTIAL: nothing of the time rules is left to the harness alone: the stream theorems (C12_record_step,
+   C02_decode_denote_records, C02_decode_denote) hold for all serialisable streams the reference semantics accepts;
+   the remaining side conditions (stream_wf incl. canon_bt, starts_with_file_id, hosted file type, header_wf) do not
+   concern time. *)
 Example C12_example : let r' := 0x30000000 + (5 + 32 - 0x30000000 mod 32) mod 32 in r' = 0x30000005.
 Proof. reflexivity. Qed.
